@@ -210,6 +210,23 @@ def run(ctx):  # noqa: C901, PLR0912, PLR0915
            fi=pc)
     # the GetMdib answer the consumer initialises from states the version its content has (read inside one lock region):
     # content of version N labelled N+1 makes reload_all discard the buffered report N+1 as outdated
+    # every report the client delivers is handed to the MDIB, which decides itself (under its lock, _pre_check_report_ok) whether
+    # to apply, buffer or ignore it: a handler that looks at is_initialized first throws away what arrives while GetMdib is
+    # in flight instead of letting it be buffered
+    n_h = 0
+    for name, hfi in sorted(repo.cls('sdc11073.mdib.consumermdibxtra.ConsumerMdibMethods').methods.items()):
+        gh_ = cfg_of(hfi)
+        for hn, hc in [(n_, c_) for n_ in gh_.real_nodes() for c_ in n_.calls()
+                       if (call_name(c_) or '').startswith('process_incoming_')]:
+            n_h += 1
+            cond = [t for t, _ in gh_.facts_at(hn).both() if 'is_initialized' in t or 'mdib_state' in t or '_state' in t]
+            ctx.ob('C06.R3', f'{name}: {call_name(hc)} unconditional', not cond,
+                   f'{name} hands every report to {call_name(hc)}' if not cond else
+                   f'{name} calls {call_name(hc)} only under {cond}: reports that arrive while the MDIB is loading are dropped '
+                   f'before they can be buffered - after the load the mirror lacks their changes', fi=hfi, node=hc)
+    ctx.floor('C06.R3', n_h, 6, 'report hand-overs in ConsumerMdibMethods')
+    from . import common
+    common.update_from_other_is_total(ctx, 'C06.R2')   # the in-place update makes the mirrored state equal to the reported one
     from .c01 import reload_replay_rules
     reload_replay_rules(ctx, 'C06.R4')   # reports that arrive during the (re)load are neither lost nor applied twice
     from .c07 import snapshot_providers
